@@ -848,6 +848,9 @@ class Association(threading.Thread):
                 "scp",
                 context_id=req._context_id,
             )
+            # The request must have been received on an accepted context
+            if context.context_id != req._context_id:
+                raise ValueError("Request received on an unaccepted context")
         except ValueError:
             # SOP Class not supported, no context ID?
             rsp.Status = 0x0122
